@@ -380,6 +380,48 @@ def build_c09(mir):
     k.reach("reach_15", [], "(= %s 15)" % r[1], "r = 15 reachable")
     k.sample_rows = lambda rnd: [[v] for v in (0, 1, 2, 3, 4, 7, 8, 9, 15, 16, 17, 255, 256, 32767, 32768, 65535)] + [[rnd.randint(0, 65535)] for _ in range(40)]
     ks.append(k)
+    # sfnt header search fields as FontBuilderWithHead::write_offset_table computes them.
+    # Environment stubs: BTreeMap::len returns the symbolic table count; the big-endian
+    # writers record their argument (they cannot fail on a WriteBuffer).
+    k = Kernel("c09_sfnt_search_fields", "C09", "sfnt_search_fields", [("ntables", USIZE)],
+               "numTables / searchRange / entrySelector / rangeShift written by FontBuilderWithHead::write_offset_table",
+               "table counts 1..=4095 (16 * numTables must fit the u16 fields); stubs: BTreeMap::len = symbolic count, U16Be/U32Be::write = recorded",
+               "the rest of FontBuilder (directory, offsets, padding, checksums)")
+    ex = mir2smt.Executor(mir)
+    k.ex = ex
+    written = []
+    import re as _re
+
+    def stub_len(args):
+        return ("int", "ntables", USIZE), "false"
+
+    def stub_write(args):
+        written.append(args[1][1])
+        return ("agg", "0", {0: ("unit",)}), "false"
+
+    ex.stubs = [(_re.compile(r"BTreeMap::<.*>::len$"), stub_len, "BTreeMap::len -> symbolic table count"),
+                (_re.compile(r"<U(16|32)Be as WriteBinary<u(16|32)>>::write::<WriteBuffer>$"), stub_write,
+                 "U16Be/U32Be::write on a WriteBuffer -> value recorded, Ok(())")]
+    wot = [n for n in mir.fns if n.endswith("::write_offset_table")]
+    if len(wot) != 1:
+        raise Unsupported("write_offset_table not found")
+    builder = ("ref", ("agg", None, {0: ("agg", None, {0: ("int", "65536", (False, 32)), 1: ("opaque",)})}))
+    r, p = ex.call(wot[0], [builder, ("opaque",)])
+    if len(written) != 5:
+        raise Unsupported("write_offset_table wrote %d fields, expected 5" % len(written))
+    k.outputs = [r[1], written[1], written[2], written[3], written[4]]
+    k.panic = p
+    nt, sr, es, rs = written[1], written[2], written[3], written[4]
+    spec = "(or %s)" % " ".join("(and (= %s %d) (<= %d ntables) (< ntables %d))" % (es, e, 1 << e, 1 << (e + 1)) for e in range(12))
+    k.prove("spec_fields", ["(>= ntables 1)", "(<= ntables 4095)"],
+            "(and (not %s) (= %s 0) (= %s ntables) %s (= %s (* 16 (div %s 16))) (= (* %s 1) %s) (= %s (- (* 16 ntables) %s)))"
+            % (p, r[1], nt, spec, sr, sr, sr, "(* 16 (ite (= %s 0) 1 (ite (= %s 1) 2 (ite (= %s 2) 4 (ite (= %s 3) 8 (ite (= %s 4) 16 (ite (= %s 5) 32 (ite (= %s 6) 64 (ite (= %s 7) 128 (ite (= %s 8) 256 (ite (= %s 9) 512 (ite (= %s 10) 1024 2048))))))))))))" % ((es,) * 11), rs, sr),
+            lambda i, o: o[0] == "ok" and o[1][0] == 0 and o[1][1] == i[0] and (1 << o[1][3]) <= i[0] < (1 << (o[1][3] + 1))
+            and o[1][2] == 16 * (1 << o[1][3]) and o[1][4] == 16 * i[0] - o[1][2],
+            "for 1..=4095 tables: entrySelector = floor(log2 n), searchRange = 16 * 2^entrySelector, rangeShift = 16 n - searchRange, numTables = n")
+    k.reach("reach_8_tables", ["(= ntables 8)"], "(and (= %s 128) (= %s 3) (= %s 0))" % (sr, es, rs), "8 tables give (128, 3, 0)")
+    k.sample_rows = lambda rnd: [[v] for v in (2, 3, 4, 5, 7, 8, 9, 15, 16, 17, 31, 32, 33, 64, 100, 255, 256, 257)] + [[rnd.randint(2, 300)] for _ in range(20)]
+    ks.append(k)
     for name, mod in (("long_align", 4), ("word_align", 2)):
         k = Kernel("c09_" + name, "C09", name, [("n", USIZE)],
                    "%s: round a length up to a multiple of %d" % (name, mod), "all usize values")
